@@ -155,6 +155,7 @@ pub fn check(case: &Case, obs: &mut Obs, which: Which, ctx: &Ctx) -> CheckResult
     let mut nontrivial = false;
 
     for (oi, op) in case.ops.iter().enumerate() {
+        let eligible_before: Vec<bool> = sh.st.conns.iter().map(|c| c.connected && !matches!(c.phase, LinkPhase::Registering)).collect();
         match op {
             Op::Advance(d) => sh.advance(*d as u64),
             Op::Flush => sh.flush_tick(),
@@ -360,7 +361,20 @@ pub fn check(case: &Case, obs: &mut Obs, which: Which, ctx: &Ctx) -> CheckResult
                 }
             }
         }
-        let _ = sh.drain_wire();
+        // wire clause: a link that was registering / disconnected before this step carries no stream data
+        let wire_tail = sh.drain_wire();
+        if which == Which::C04 && !matches!(op, Op::Client(..)) {
+            for e in &wire_tail {
+                let internal = e.bytes.len() >= 2 && (e.bytes[0] == 0x90 || e.bytes[0] == 0x92);
+                if let Some(i) = sh.idx_of(e.addr)
+                    && !internal
+                    && i < eligible_before.len()
+                    && !eligible_before[i]
+                {
+                    return crate::rt::viol("stream-data-on-unregistered-link", format!("op {oi} {:?}: link {i} was not registered before this step but put a {}-byte stream datagram on the wire", op, e.bytes.len()));
+                }
+            }
+        }
         let _ = sh.drain_client();
     }
     obs.count("decisions", decisions);
